@@ -253,7 +253,7 @@ typedef struct pv_world {
     uint8_t rand_delivered[256]; size_t rand_total;      /* bytes delivered in this call */
     int alloc_failed_in_call;
     uint64_t aliased_norm_calls;    /* NFC/NFKD called with overlapping input and output */
-    int norm_gentle;                /* C16: the normalisers write their result and its terminator only (a clobbered buffer would wipe evidence) */
+    int norm_gentle;                /* C16: 1 = the normalisers write their result and its terminator only (a clobbered buffer would wipe evidence); 2 = they work in place, the tail of the input stays behind the terminator of a shorter result */
     int norm_invalid_empty;         /* the normalisers answer invalid UTF-8 with an empty string (what a wrapper around a failing converter does) */
     /* ledger */
     pv_block live[PV_MAXLIVE]; int nlive;
